@@ -490,15 +490,18 @@ example : (Shape.compo true 0 .composite
   simp only [Shape.FitsIds, Shapes.AllFitIds, and_true, true_and]
   decide
 
-/-- `ArgsT::SERIAL_BITS` (the size of `SerialBuffer`) is a `Short`: it equals the published
-`RF_::SERIAL_BITS` only below 256. -/
-theorem argsSerialBits_partial (s : Shape) (h : s.info.serialBits < 256) :
+/-- `ArgsT::SERIAL_BITS` (the size of `SerialBuffer / WriteStream / ReadStream`) always equals the
+published `RF_::SERIAL_BITS`: both are `Long`s holding the same constant. -/
+theorem argsSerialBits_eq_published (s : Shape) :
+    s.info.argsSerialBits = s.info.serialBitsFW := rfl
+
+/-- **`ArgsT::SERIAL_BITS` is the number that follows from the declaration** whenever that number
+fits a `Long` (at most 65535 bits).  `FitsIds` alone bounds `ACTIVE_BITS` and `RESUMABLE_BITS`
+separately, not their sum + 1, hence the explicit hypothesis. -/
+theorem argsSerialBits_eq (s : Shape) (h : s.info.serialBits < 65536) :
     s.info.argsSerialBits = s.info.serialBits := by
   simp only [Info.argsSerialBits, Info.serialBitsFW, Info.serialBits] at *
-  omega
-
-example : (Shape.compo true 0 .composite (.cons (.leaf 0) (.cons (.leaf 0) .nil))).info.serialBits < 256 := by
-  decide
+  exact Nat.mod_eq_of_lt h
 
 /-- `n` copies of `s` as a sub-state list. -/
 def rep : Nat → Shape → Shapes
@@ -506,37 +509,31 @@ def rep : Nat → Shape → Shapes
   | n + 1, s => .cons s (rep n s)
 
 /-- 9 × 9 composite regions of 3 states each under a composite root: 334 states, 91 regions —
-far inside every identifier type. -/
+far inside every identifier type, `SERIAL_BITS = 304 ≥ 256`. -/
 def serialWitness : Shape :=
   .compo true 0 .composite (rep 9 (.compo true 0 .composite (rep 9
     (.compo true 0 .composite (rep 3 (.leaf 0))))))
 
 /-
-Full statement (FALSE of the code as written):
-  theorem argsSerialBits_full (s : Shape) (h : s.FitsIds) :
-      s.info.argsSerialBits = s.info.serialBits
-`ArgsT::SERIAL_BITS` is declared `Short` in structure/forward.hpp although it receives the `Long`
-`RF_::SERIAL_BITS`; `SerialBuffer = StreamBufferT<ArgsT::SERIAL_BITS>` is therefore sized by the
-value modulo 256.  `argsSerialBits_partial` above is the provable part; the negation of the full
-statement is proved on a witness that was also compiled against the real header (g++ reports
-`conversion ... changes value from '304' to '48'`, `sizeof(SerialBuffer) == 6`, and `save()` ends in
-an AddressSanitizer stack-buffer-overflow: /verif/harness/c17_witness_serial_bits.cpp).
+History.  Before /repo commit "fix: keep the serialization bit count in a Long inside ArgsT",
+`ArgsT::SERIAL_BITS` was declared `Short`, `Info.argsSerialBits` was `serialBitsFW % 256`, and this
+file proved
+  argsSerialBits_partial       : serialBits < 256 → argsSerialBits = serialBits
+  argsSerialBits_full_is_false : serialWitness within all limits, serialBits = 304, argsSerialBits = 48
+  not_argsSerialBits_full      : ¬ ∀ s, s.FitsIds → argsSerialBits = serialBits
+(on the real code: `sizeof(SerialBuffer) == 6` instead of 38 and an AddressSanitizer
+stack-buffer-overflow in `save()`; /verif/harness/c17_witness_serial_bits.cpp).  With the fix the
+full statement is `argsSerialBits_eq`; the same witness is kept as a regression example below and
+as a shape of the thorough tier of gen/run_c17.py.
 -/
 
-/-- **Counterexample to the full statement**: a well-formed machine within all identifier limits
-whose `ArgsT::SERIAL_BITS` (48) differs from the published `SERIAL_BITS` (304). -/
-theorem argsSerialBits_full_is_false :
+/-- Regression example for the repaired defect (and a non-trivial instance of the hypothesis of
+`argsSerialBits_eq` beyond the old 8-bit limit). -/
+theorem serialWitness_regression :
     serialWitness.wf = true ∧ serialWitness.FitsIds ∧ serialWitness.info.stateCount = 334 ∧
     serialWitness.info.regionCount = 91 ∧ serialWitness.info.serialBits = 304 ∧
-    serialWitness.info.argsSerialBits = 48 := by
+    serialWitness.info.argsSerialBits = 304 := by
   decide
-
-theorem not_argsSerialBits_full :
-    ¬ ∀ s : Shape, s.FitsIds → s.info.argsSerialBits = s.info.serialBits := by
-  intro h
-  have := h serialWitness argsSerialBits_full_is_false.2.1
-  rw [argsSerialBits_full_is_false.2.2.2.2.1, argsSerialBits_full_is_false.2.2.2.2.2] at this
-  exact absurd this (by decide)
 
 set_option maxRecDepth 8000 in
 /-- Outside `FitsIds` the fixed-width computation really differs (model only; in C++ such a
@@ -552,52 +549,55 @@ end Hfsm.Props.C17
 /-
 PROPERTY C17 — theorems that constitute the property (all for every `Shape`, no size bound):
 
-  Hfsm.C17.nodes_follow_declaration        visited nodes = declared nodes in DFS pre-order
-  Hfsm.C17.nodes_paths_eq_stateList        … in the order of StateList
-  Hfsm.C17.regions_paths_eq_regionList     … regions in the order of RegionList
-  Hfsm.C17.walk_stateIds                   STATE_IDs through half-split / remaining offsets are consecutive
-  Hfsm.C17.stateIds_preorder               state ids = pre-order index, root = 0
-  Hfsm.C17.root_first                      root: first, path [], I_<0,0,0,0>, Parent{}
-  Hfsm.C17.stateId_eq_position             k-th visited node has id k and is StateList[k]
-  Hfsm.C17.stateId_public_eq               stateId<S>() (index in StateList) = I_::STATE_ID
-  Hfsm.C17.idx_closed_form                 whole I_ tuple = counts/units of what was visited before
-  Hfsm.C17.compoIndex_preorder             COMPO_INDEX = rank among composite regions
-  Hfsm.C17.orthoIndex_preorder             ORTHO_INDEX = rank among orthogonal regions
-  Hfsm.C17.regionIds_preorder              REGION_ID = COMPO_INDEX + ORTHO_INDEX = rank among regions
-  Hfsm.C17.regionId_public_eq              regionId<S>() (index in RegionList) = REGION_ID
-  Hfsm.C17.stateCount_eq                   STATE_COUNT = #declared nodes (anonymous heads included)
-  Hfsm.C17.regionCount_eq                  REGION_COUNT
-  Hfsm.C17.compoCount_eq                   COMPO_COUNT
-  Hfsm.C17.orthoCount_eq                   ORTHO_COUNT
-  Hfsm.C17.orthoUnits_eq                   ORTHO_UNITS = Σ ⌈width/8⌉
-  Hfsm.C17.compoProngs_eq                  COMPO_PRONGS = Σ width
-  Hfsm.C17.resumableBits_eq                RESUMABLE_BITS = Σ (bitContain width + 1)
-  Hfsm.C17.activeBits_leaf / activeBits_compo / activeBits_ortho   ACTIVE_BITS recursion (max / sum)
-  Hfsm.C17.serialBits_eq                   SERIAL_BITS
-  Hfsm.C17.taskCapacity_eq                 default TASK_CAPACITY = 2 · COMPO_PRONGS
-  Hfsm.C17.reverseDepth_eq                 REVERSE_DEPTH = height
-  Hfsm.C17.width_eq                        WIDTH
-  Hfsm.C17.forkId_compo / forkId_ortho     fork id sign convention
-  Hfsm.C17.parent_is_containing_fork       Parent = (containing fork, declaration position)
-  Hfsm.C17.path_identifies_node            nodes are identified by their path
-  Hfsm.C17.register_tables                 all registry tables after deepRegister (needs s.wf)
-  Hfsm.C17.register_needs_wf               … and the hypothesis is necessary in the model
-  Hfsm.C17.register_stateParent            stateParents[id]
-  Hfsm.C17.register_region                 regionHeads / regionSizes [REGION_ID]
-  Hfsm.C17.subtree_range                   sub-tree ids = [id, id + size)
-  Hfsm.C17.subtree_in_bounds               ranges inside [0, STATE_COUNT)
-  Hfsm.C17.subtree_disjoint                siblings' ranges are disjoint
-  Hfsm.C17.size_eq_subtree_count           REGION_SIZE = #nodes of the sub-tree
-  Hfsm.C17.info_structure_only             counts depend on the skeleton only
-  Hfsm.C17.ids_structure_only              ids/parents/sizes depend on the skeleton only (headless head takes an id)
-  Hfsm.C17.register_structure_only         tables depend on the skeleton only
-  Hfsm.C17.fixed_width_exact               FitsIds → fixed-width arithmetic = Nat arithmetic
-  Hfsm.C17.serialBits_fixed_width          SERIAL_BITS (Long)
-  Hfsm.C17.taskCapacity_fixed_width        TASK_CAPACITY (Long)
-  Hfsm.C17.fixed_width_differs_outside_bounds   the bound is needed (model)
-  Hfsm.C17.argsSerialBits_partial          ArgsT::SERIAL_BITS = SERIAL_BITS below 256
-  Hfsm.C17.argsSerialBits_full_is_false    witness: 334 states, SERIAL_BITS 304, ArgsT::SERIAL_BITS 48
-  Hfsm.C17.not_argsSerialBits_full         negation of the full statement (KNOWN FINDING, see above)
+  Hfsm.Props.C17.nodes_follow_declaration        visited nodes = declared nodes in DFS pre-order
+  Hfsm.Props.C17.nodes_paths_eq_stateList        … in the order of StateList
+  Hfsm.Props.C17.regions_paths_eq_regionList     … regions in the order of RegionList
+  Hfsm.Props.C17.walk_stateIds                   STATE_IDs through half-split / remaining offsets are consecutive
+  Hfsm.Props.C17.stateIds_preorder               state ids = pre-order index, root = 0
+  Hfsm.Props.C17.root_first                      root: first, path [], I_<0,0,0,0>, Parent{}
+  Hfsm.Props.C17.stateId_eq_position             k-th visited node has id k and is StateList[k]
+  Hfsm.Props.C17.stateId_public_eq               stateId<S>() (index in StateList) = I_::STATE_ID
+  Hfsm.Props.C17.idx_closed_form                 whole I_ tuple = counts/units of what was visited before
+  Hfsm.Props.C17.compoIndex_preorder             COMPO_INDEX = rank among composite regions
+  Hfsm.Props.C17.orthoIndex_preorder             ORTHO_INDEX = rank among orthogonal regions
+  Hfsm.Props.C17.regionIds_preorder              REGION_ID = COMPO_INDEX + ORTHO_INDEX = rank among regions
+  Hfsm.Props.C17.regionId_public_eq              regionId<S>() (index in RegionList) = REGION_ID
+  Hfsm.Props.C17.stateCount_eq                   STATE_COUNT = #declared nodes (anonymous heads included)
+  Hfsm.Props.C17.regionCount_eq                  REGION_COUNT
+  Hfsm.Props.C17.compoCount_eq                   COMPO_COUNT
+  Hfsm.Props.C17.orthoCount_eq                   ORTHO_COUNT
+  Hfsm.Props.C17.orthoUnits_eq                   ORTHO_UNITS = Σ ⌈width/8⌉
+  Hfsm.Props.C17.compoProngs_eq                  COMPO_PRONGS = Σ width
+  Hfsm.Props.C17.resumableBits_eq                RESUMABLE_BITS = Σ (bitContain width + 1)
+  Hfsm.Props.C17.activeBits_leaf                 ACTIVE_BITS of a state = 0
+  Hfsm.Props.C17.activeBits_compo                ACTIVE_BITS composite = bitContain width + max over sub-states
+  Hfsm.Props.C17.activeBits_ortho                ACTIVE_BITS orthogonal = sum over sub-states
+  Hfsm.Props.C17.serialBits_eq                   SERIAL_BITS
+  Hfsm.Props.C17.taskCapacity_eq                 default TASK_CAPACITY = 2 · COMPO_PRONGS
+  Hfsm.Props.C17.reverseDepth_eq                 REVERSE_DEPTH = height
+  Hfsm.Props.C17.width_eq                        WIDTH
+  Hfsm.Props.C17.forkId_compo                    COMPO_ID = COMPO_INDEX + 1
+  Hfsm.Props.C17.forkId_ortho                    ORTHO_ID = -ORTHO_INDEX - 1
+  Hfsm.Props.C17.parent_is_containing_fork       Parent = (containing fork, declaration position)
+  Hfsm.Props.C17.path_identifies_node            nodes are identified by their path
+  Hfsm.Props.C17.register_tables                 all registry tables after deepRegister (needs s.wf)
+  Hfsm.Props.C17.register_needs_wf               … and the hypothesis is necessary in the model
+  Hfsm.Props.C17.register_stateParent            stateParents[id]
+  Hfsm.Props.C17.register_region                 regionHeads / regionSizes [REGION_ID]
+  Hfsm.Props.C17.subtree_range                   sub-tree ids = [id, id + size)
+  Hfsm.Props.C17.subtree_in_bounds               ranges inside [0, STATE_COUNT)
+  Hfsm.Props.C17.subtree_disjoint                siblings' ranges are disjoint
+  Hfsm.Props.C17.size_eq_subtree_count           REGION_SIZE = #nodes of the sub-tree
+  Hfsm.Props.C17.info_structure_only             counts depend on the skeleton only
+  Hfsm.Props.C17.ids_structure_only              ids/parents/sizes depend on the skeleton only (headless head takes an id)
+  Hfsm.Props.C17.register_structure_only         tables depend on the skeleton only
+  Hfsm.Props.C17.fixed_width_exact               FitsIds → fixed-width arithmetic = Nat arithmetic
+  Hfsm.Props.C17.serialBits_fixed_width          SERIAL_BITS (Long)
+  Hfsm.Props.C17.taskCapacity_fixed_width        TASK_CAPACITY (Long)
+  Hfsm.Props.C17.fixed_width_differs_outside_bounds   the bound is needed (model)
+  Hfsm.Props.C17.argsSerialBits_eq_published  ArgsT::SERIAL_BITS = RF_::SERIAL_BITS (both Long), unconditionally
+  Hfsm.Props.C17.argsSerialBits_eq         ArgsT::SERIAL_BITS = declared number when that is ≤ 65535
+  Hfsm.Props.C17.serialWitness_regression  334 states, SERIAL_BITS = ArgsT::SERIAL_BITS = 304 (was 48 before the fix)
 
 Split lemmas the property rests on (Hfsm/Proofs/ShapeInfo.lean):
   Hfsm.csAssign_eq_linAssign   balanced LHalf/RHalf offsets = left-to-right prefix sums
